@@ -461,6 +461,7 @@ theorem KN_flush (σ : Sess) (h : KN σ) : KN (flush σ).1 := by
       · exact h
       · apply KN_bind (KN_requireActive _ h)
         intro τ hτ
+        unfold flushCore
         exact KN_match_fail _ _ (KN_flushExecute τ _ _ hτ) KN_flushFailed
 
 theorem KN_autoflush (σ : Sess) (h : KN σ) : KN (autoflush σ).1 := KN_flush σ h
